@@ -85,8 +85,19 @@ def judge_batch(name, header, progs, paths, backend, tier, stats, violations, fo
             stray.append(dg)
         else:
             by_line.setdefault(dg["line"], []).append(dg)
+    located = [x for x in stray if x["line"] is not None]
+    if located:
+        # an error inside the (well-formed, conflict-free by the model) declarations themselves: the declared
+        # derivations do not type-check as a whole, so no per-program verdict can be read from this crate
+        x = located[0]
+        violations.append({
+            "property": "C06", "key": "C06/declared-derivations-rejected@%s" % backend, "count": 1, "engine": "E2", "backend": backend,
+            "tier": tier, "program": "\n".join(["#![allow(unused, non_snake_case)]"] + header), "expect": "accept",
+            "example": {"case": {"universe": name, "declarations": header[1:]}, "observed": "%s: %s" % (x["code"], x["message"][:200]),
+                        "expected": "the declarations compile (the model finds no two derivations generating the same operator)"}})
+        return src
     if stray:
-        raise Machinery("C06 %s[%s]: error outside the generated programs: %s" % (name, backend, stray[0]))
+        raise Machinery("C06 %s[%s]: unattributable compile error: %s" % (name, backend, stray[0]))
     for p in progs:
         errs = by_line.get(p["line"], [])
         stats["programs"] += 1
@@ -297,7 +308,7 @@ def run(prop, tier, seed, t0):
             else:
                 totals[k] = totals.get(k, 0) + v
     # vacuity guards
-    if totals["programs"] < 2 * 1350 + 150 + 672 or totals["expected_accept"] < 200 or totals["graphs_explored"] < 20:
+    if not violations and (totals["programs"] < 2 * 1350 + 150 + 672 or totals["expected_accept"] < 200 or totals["graphs_explored"] < 20):
         raise Machinery("vacuity guard: C06 explored too little: %s" % {k: v for k, v in totals.items() if k != "codes"})
     # merge violation classes
     merged = {}
